@@ -155,6 +155,12 @@ func genTree(r *hx.Rand, cs int, maxFiles int) treeSpec {
 			}
 		}
 	}
+	// now and then a file with many chunks: bitmaps longer than a machine word, many
+	// frames per stream (the small trees above never leave the single-byte bitmap regime)
+	if cs <= 64 && len(t.files) < maxFiles && r.Intn(4) == 0 && !used["many-chunks.bin"] {
+		used["many-chunks.bin"] = true
+		t.files = append(t.files, treeFile{"many-chunks.bin", r.Bytes(cs*(57+r.Intn(100)) + r.Intn(cs))})
+	}
 	if r.Intn(3) == 0 {
 		t.dirs = append(t.dirs, "emptydir")
 	}
